@@ -53,6 +53,8 @@ def design(rep, tier):
     rep.add_model(r, role="design: id/index plumbing between stages, every batch composition in the bound")
     n = common.neg_check("Plumbing", "Neg_Plumbing_zip.cfg")
     rep.add_model(n, role="negative: positional zip instead of id map mis-attributes results")
+    rep.add_model(common.neg_check("Plumbing", "Neg_Plumbing_ids.cfg"),
+                  role="negative: ids kept as they arrive with the rows (not the positions) misroute the id-keyed write-backs")
 
 
 def run(tier):
